@@ -9,6 +9,8 @@ import GormModel.Lemmas.SchemaAttrs
 import GormModel.Model.Serializer
 import GormModel.Gen.BackfillFacts
 import GormModel.Gen.SchemaDeclFacts
+import GormModel.Gen.QueryDestKeyFacts
+import GormModel.Model.DestKey
 namespace Gorm
 open Gorm.Scan
 
@@ -923,6 +925,65 @@ theorem C03_serializer_scan_overwrites :
     gobScan .null = .zero ∧ gobScan (.blob []) = .zero := by decide
 
 end MapsAndSerializers
+
+/-! ## Round 6 — the key a DESTINATION carries (callbacks/query.go `BuildQuerySQL`)
+
+`First/Take/Last/Find(&T{key…})`: when the destination is a struct of the model's type, BuildQuerySQL turns the key values
+it carries into conditions.  Transcription: one equality per member of `Schema.PrimaryFields` (ALL of them, in that order)
+whose value is non-zero (`0` stands for the zero value), ANDed in one `clause.Where`; nothing when every part is zero.
+The model is Model/DestKey.lean (`destKeyConds`, `rowMatches`), compared with the WHERE clause of real DryRun statements by
+the `destkey` correspondence suite; the regenerated facts `Gen.destKey*` (extract/gen_c03_r6.go) pin the block to this
+shape; the `keyed` e2e suite judges the behaviour on composite keys whose members are shared by several rows. -/
+section DestKey
+
+/-- every NON-ZERO part the destination carries is demanded of the row that is loaded (zero parts are ignored) -/
+theorem C03_dest_key_nonzero_parts (key : List (String × Nat)) (row : String → Nat)
+    (hm : rowMatches row (destKeyConds key) = true) : ∀ p ∈ key, p.2 ≠ 0 → row p.1 = p.2 := by
+  intro p hp hne
+  have hmem : p ∈ destKeyConds key := by
+    unfold destKeyConds
+    exact List.mem_filter.2 ⟨hp, by simpa using hne⟩
+  have h := List.all_eq_true.1 hm p hmem
+  simpa using h
+
+/-- a destination carrying a COMPLETE key (no zero part) can only load a row that has exactly this key — whatever the
+    number of members, whichever of them is the prioritized one -/
+theorem C03_dest_key_identifies_row (key : List (String × Nat)) (row : String → Nat)
+    (hnz : ∀ p ∈ key, p.2 ≠ 0) (hm : rowMatches row (destKeyConds key) = true) : ∀ p ∈ key, row p.1 = p.2 :=
+  fun p hp => C03_dest_key_nonzero_parts key row hm p hp (hnz p hp)
+
+/-- hence two rows a complete key can load agree on every key column: with a primary-key constraint they are one row -/
+theorem C03_dest_key_unique (key : List (String × Nat)) (r1 r2 : String → Nat) (hnz : ∀ p ∈ key, p.2 ≠ 0)
+    (h1 : rowMatches r1 (destKeyConds key) = true) (h2 : rowMatches r2 (destKeyConds key) = true) :
+    ∀ p ∈ key, r1 p.1 = r2 p.1 := by
+  intro p hp
+  rw [C03_dest_key_identifies_row key r1 hnz h1 p hp, C03_dest_key_identifies_row key r2 hnz h2 p hp]
+
+/-- the row stored under the carried key is always admitted (the conditions never exclude the record itself) -/
+theorem C03_dest_key_admits_own_row (key : List (String × Nat)) (row : String → Nat)
+    (hrow : ∀ p ∈ key, p.2 ≠ 0 → row p.1 = p.2) : rowMatches row (destKeyConds key) = true := by
+  unfold rowMatches
+  apply List.all_eq_true.2
+  intro c hc
+  have hc' := List.mem_filter.1 hc
+  have hne : c.2 ≠ 0 := by simpa using hc'.2
+  simpa using hrow c hc'.1 hne
+
+/-- the tree under check has the transcribed shape: ONE destination-key block, ranging over `Schema.PrimaryFields` only,
+    no early exit from the loop, a part becomes a condition iff it is non-zero, the condition is an equality on the member's
+    own column, and the conditions are added as one ANDed WHERE whenever there is at least one -/
+theorem C03_dest_key_block_facts :
+    Gen.destKeyBlocks = 1 ∧ Gen.destKeyRanges = ["db.Statement.Schema.PrimaryFields"] ∧ Gen.destKeyLoopExits = false ∧
+    Gen.destKeyPartGuards = ["!isZero"] ∧
+    Gen.destKeyAppends = ["clause.Eq{Column:clause.Column{Table:db.Statement.Table,Name:primaryField.DBName},Value:v}"] ∧
+    Gen.destKeyGuards = ["len(conds)>0"] ∧ Gen.destKeyClauses = ["clause.Where{Exprs:conds}"] := by decide
+
+/-- non-vacuity: the wave-6 witness — key (id, locale) = (1, 2) against rows (1,1) and (1,2) -/
+example : rowMatches (fun c => if c = "id" then 1 else 1) (destKeyConds [("id", 1), ("locale", 2)]) = false ∧
+    rowMatches (fun c => if c = "id" then 1 else 2) (destKeyConds [("id", 1), ("locale", 2)]) = true ∧
+    destKeyConds [("id", 1), ("locale", 0)] = [("id", 1)] := by decide
+
+end DestKey
 
 /-- non-vacuity (round 5): a map with an explicit nil for a column, created through Table("t"): the nil is bound; the
     json law's hypotheses hold for a toy codec -/
